@@ -300,7 +300,7 @@ fn run_handbuilt<K: Kmer + Send + Sync>(c: &GCase) -> Outcome {
             }
             let got = gv.nodes[i].edges(side);
             o.transitions += 1;
-            if got.len() != want.len() || got.iter().zip(want.iter()).any(|(e, a)| !a.contains(e)) {
+            if !vglue::oracles::match_edges(got, &want) {
                 o.fail("wrong-edge", format!("[handbuilt] node {} = {} side {:?}: edges {:?}, acceptable {:?}", i, ascii(&gv.nodes[i].seq), side, got, want));
             }
             for (tgt, tside, _) in got {
